@@ -40,6 +40,9 @@ Proof.
   - eapply step_vi_granted_live; eauto.
   - eapply step_vi_tmadd_live; eauto.
   - eapply step_vi_ds_ended; eauto.
+  - eapply step_vi_ds_unique; eauto.
+  - eapply step_vi_connect_once; eauto.
+  - eapply step_vi_ds_noclear; eauto.
   - eapply step_vi_ds_todo; eauto.
   - eapply step_vi_ds_unlock; eauto.
   - eapply step_vi_unl_notimer; eauto.
@@ -58,7 +61,8 @@ Proof.
            | H : ∃ _, _ |- _ => destruct H
            | H : _ ∧ _ |- _ => destruct H
            end; try done.
-  split; [intros (? & ? & ? & _); done|intros (? & Hx & _); by rewrite lookup_empty in Hx].
+  - split; [intros (? & ? & ? & _); done|intros (? & Hx & _); by rewrite lookup_empty in Hx].
+  - constructor.
 Qed.
 
 (** ** time passes: the invariant does not depend on the clock, except that armed timers lie in the future *)
@@ -94,6 +98,9 @@ Proof.
   - exact (vi_granted_live _ _ I).
   - exact (vi_tmadd_live _ _ I).
   - exact (vi_ds_ended _ _ I).
+  - exact (vi_ds_unique _ _ I).
+  - exact (vi_connect_once _ _ I).
+  - exact (vi_ds_noclear _ _ I).
   - exact (vi_ds_todo _ _ I).
   - exact (vi_ds_unlock _ _ I).
   - exact (vi_unl_notimer _ _ I).
@@ -157,12 +164,48 @@ Proof.
     apply svinv_now; [done|]. intros tk id tm d (_ & Hh & Hst). simpl in Hh. eapply Hfut'; eauto.
 Qed.
 
-(** ** the network stop: contexts end, then a ConnEnd is delivered for every session *)
-Lemma spawn_fold cfg (l : list (str * list clock)) X : SvInv cfg X → v_shut X = true →
-  SvInv cfg (fold_left (λ s '(sid, _), spawn (SConnEnd sid) VDsFlag s) l X).
+(** ** the network stop: contexts end, then a ConnEnd is delivered for every open connection *)
+Lemma omap_NoDup_sub {A B} (f g : A → option B) l : (∀ x y, f x = Some y → g x = Some y) → NoDup (omap g l) → NoDup (omap f l).
 Proof.
-  revert X. induction l as [|[sid ?] l IH]; intros X I Hsh; simpl; [done|].
-  apply IH; [|done]. eapply (svinv_vsr cfg X (VTick 0)); [done|done|]. eapply vsr_eq; [|by eapply (vsr_sh_spawn _ _ sid)]. reflexivity.
+  intros Hfg. induction l as [|x l IH]; simpl; [done|].
+  destruct (f x) as [y|] eqn:Hf.
+  - rewrite (Hfg _ _ Hf). intros [Hy Hnd]%NoDup_cons. apply NoDup_cons. split; [|auto].
+    intros (x' & Hx' & Hf')%elem_of_list_omap. apply Hy. apply elem_of_list_omap. exists x'. eauto.
+  - destruct (g x); [intros [_ ?]%NoDup_cons|]; auto.
+Qed.
+Lemma open_sids_NoDup tr : NoDup (connects tr) → NoDup (open_sids tr).
+Proof.
+  intros Hnd. unfold open_sids.
+  apply (omap_NoDup_sub _ (λ e, match e with SvConnect sid => Some sid | _ => None end)).
+  - intros [] y; try done. by case_match.
+  - change (NoDup (connects (rev tr))). unfold connects. by rewrite <- (Permutation_rev tr).
+Qed.
+Lemma ended_in_false tr sid : ended_in tr sid = false → SvConnEnd sid ∉ tr.
+Proof.
+  intros H Hin. apply (existsb_false _ _ H) in Hin. simpl in Hin. by rewrite bool_decide_eq_true_2 in Hin.
+Qed.
+Lemma elem_of_open_sids tr sid : sid ∈ open_sids tr → SvConnect sid ∈ tr ∧ SvConnEnd sid ∉ tr.
+Proof.
+  unfold open_sids. intros (e & He & Hf)%elem_of_list_omap. destruct e; try done.
+  destruct (ended_in tr sid0) eqn:Hen; [done|]. simplify_eq. split; [by rewrite <- (Permutation_rev tr) in He|by apply ended_in_false].
+Qed.
+
+Lemma spawn_fold cfg (l : list str) X : SvInv cfg X → v_shut X = true → all_cancelled X → NoDup l →
+  (∀ sid, sid ∈ l → ev_in (SvConnect sid) X ∧ ¬ ev_in (SvConnEnd sid) X) →
+  SvInv cfg (spawn_list l X).
+Proof.
+  unfold spawn_list. revert X. induction l as [|sid l IH]; intros X I Hsh Hcn Hnd Hl; simpl; [done|].
+  apply NoDup_cons in Hnd as [Hsid Hnd]. pose proof (next_fresh _ _ I) as Hnx.
+  apply IH; [|done| |done|].
+  - eapply (svinv_vsr cfg X (VConnEnd sid)); [done|apply Hl; left|]. eapply vsr_eq; [|by eapply (vsr_sh_spawn _ _ sid)]. reflexivity.
+  - intros tid t Ht Hc Hf. simpl in Ht. apply lookup_insert_Some in Ht as [[_ <-]|[_ Ht]]; [done|]. by eapply Hcn.
+  - intros sid' Hin. destruct (Hl sid') as [H1 H2]; [by right|]. unfold ev_in in *. simpl. split; [by right|].
+    intros [?|?]%elem_of_cons; [|done]. simplify_eq. done.
+Qed.
+
+Lemma shnet_cancel_cancelled t : client_op (st_op t) = true → is_fin (st_pc t) = false → st_cancel (shnet_cancel t) ≠ None.
+Proof.
+  unfold shnet_cancel. intros Hc Hf. destruct (st_op t); try done; destruct (st_cancel t) eqn:Hcn; rewrite ?Hf; simpl; by rewrite ?Hcn.
 Qed.
 
 Lemma svinv_shnet cfg s tid t : SvInv cfg s → v_thr s !! tid = Some t → st_op t = SShutdown → st_pc t = VShNet →
@@ -173,7 +216,12 @@ Proof.
   assert (SvInv cfg (s <| v_thr := shnet_cancel <$> v_thr s |>)) as I1.
   { eapply (svinv_vsr cfg s (VTick 0)); [done|done|]. apply vsr_sh_cancel. }
   set (s1 := s <| v_thr := shnet_cancel <$> v_thr s |>) in *.
-  assert (SvInv cfg (spawn_sessions s1)) as I2 by (by apply spawn_fold).
+  assert (SvInv cfg (spawn_sessions s1)) as I2.
+  { apply spawn_fold; [done|done| | |].
+    - intros x tx Hx Hc Hf. simpl in Hx. rewrite lookup_fmap in Hx. apply fmap_Some in Hx as (t0 & Hx & ->).
+      destruct (shnet_cancel_ok t0) as (Ho & Hp & _). rewrite Ho in Hc. rewrite Hp in Hf. by apply shnet_cancel_cancelled.
+    - apply open_sids_NoDup, (vi_connect_once _ _ I1).
+    - intros sid Hin. by apply elem_of_open_sids in Hin. }
   assert (v_thr (spawn_sessions s1) !! tid = Some t) as Ht2.
   { unfold spawn_sessions. rewrite spawn_fold_thr by (simpl; apply (vi_sys _ _ I tid t Ht)).
     simpl. rewrite lookup_fmap, Ht. simpl. unfold shnet_cancel. by rewrite Hop. }
